@@ -387,6 +387,8 @@ Definition ws_only (t : str) : bool :=
 
 Definition ostr (o : option str) : str := match o with Some x => x | None => [] end.
 
+Definition is_doctype (b : bnode) : bool := match b with BDoctype _ _ _ => true | _ => false end.
+
 (* XmlTreeBuilder::step, including the Reprocess(End, Eof) round *)
 Definition step (s : tb) (t : token) : tb :=
   match tphase s with
@@ -403,7 +405,10 @@ Definition step (s : tb) (t : token) : tb :=
     | TPi tg d => append_doc s (BPi tg d)
     | TChars c => if ws_only c then s else add_err s
     | TEof => set_phase (add_err s) PEnd
-    | TDoctype n p sy => append_doc s (BDoctype (ostr n) (ostr p) (ostr sy))
+    | TDoctype n p sy =>
+      (* a second DOCTYPE in the start phase is a parse error and is ignored (doctype_seen in the Rust code) *)
+      if existsb is_doctype (tdoc s) then add_err s
+      else append_doc s (BDoctype (ostr n) (ostr p) (ostr sy))
     | _ => add_err s
     end
   | PMain =>
